@@ -23,7 +23,8 @@ import (
 func ParseIdentities(f io.Reader) ([]Identity, error) {
 	const privateKeySizeLimit = 1 << 24 // 16 MiB
 	var ids []Identity
-	scanner := bufio.NewScanner(io.LimitReader(f, privateKeySizeLimit))
+	lr := &io.LimitedReader{R: f, N: privateKeySizeLimit}
+	scanner := bufio.NewScanner(lr)
 	var n int
 	for scanner.Scan() {
 		n++
@@ -39,6 +40,9 @@ func ParseIdentities(f io.Reader) ([]Identity, error) {
 	}
 	if err := scanner.Err(); err != nil {
 		return nil, fmt.Errorf("failed to read secret keys file: %v", err)
+	}
+	if lr.N <= 0 {
+		return nil, fmt.Errorf("failed to read secret keys file: file too long")
 	}
 	if len(ids) == 0 {
 		return nil, fmt.Errorf("no secret keys found")
@@ -58,7 +62,8 @@ func ParseIdentities(f io.Reader) ([]Identity, error) {
 func ParseRecipients(f io.Reader) ([]Recipient, error) {
 	const recipientFileSizeLimit = 1 << 24 // 16 MiB
 	var recs []Recipient
-	scanner := bufio.NewScanner(io.LimitReader(f, recipientFileSizeLimit))
+	lr := &io.LimitedReader{R: f, N: recipientFileSizeLimit}
+	scanner := bufio.NewScanner(lr)
 	var n int
 	for scanner.Scan() {
 		n++
@@ -76,6 +81,9 @@ func ParseRecipients(f io.Reader) ([]Recipient, error) {
 	}
 	if err := scanner.Err(); err != nil {
 		return nil, fmt.Errorf("failed to read recipients file: %v", err)
+	}
+	if lr.N <= 0 {
+		return nil, fmt.Errorf("failed to read recipients file: file too long")
 	}
 	if len(recs) == 0 {
 		return nil, fmt.Errorf("no recipients found")
